@@ -26,9 +26,14 @@ for seed, tiers in ((1, ("quick", "thorough")), (2, ("quick", "thorough")), (3, 
                                    bounds="seed topology S%d (shape concrete, built by the real core); query arguments symbolic" % seed,
                                    tiers={t: {} for t in tiers})
         if n == "distrib":
-            h.update(object_bits=13, bounds="seed topology S%d; roots in {machine, both packages, package 1} x n in 0..NMAX x until in {1, INT_MAX} (thorough: {-1,1,2,3,INT_MAX}) x REVERSE enumerated as concrete runs; remaining flag bits symbolic" % seed)
-            h["tiers"] = {"thorough": {"defines": {"NMAX": 3}, "timeout": 8000}}      # stretch: no verdict within the quick budget
-            h["core"] = False
+            if seed not in (1, 2): continue
+            for k in range(20):
+                tt = {"thorough": {"defines": {"NMAX": 5, "NU": 3, "UNTILS": "{1,2,2147483647}", "NSLICE": 20, "SLICE": k}, "timeout": 3000}}
+                if k < 10: tt["quick"] = {"defines": {"NMAX": 4, "NSLICE": 10, "SLICE": k}}
+                hd = dict(h); hd.update(name="distrib_s%d_%02d" % (seed, k), tiers=tt, object_bits=13, cost=60,
+                                        bounds="seed topology S%d; roots in {machine, both packages, package 1} x n in 0..4 (thorough 0..5) x until in {1, INT_MAX} (thorough {1, 2, INT_MAX}) x flags in {0, REVERSE} plus an unknown flag bit: concrete runs selected by symbolic inputs, dealt to slices; exactly n non-empty sets inside the roots, union = roots, disjoint when n <= PUs, order" % seed)
+                HARNESSES.append(hd)
+            continue
         if n == "closest": h.update(bounds="seed topology S%d; every source object (enumerated), max 0..5 symbolic" % seed)
         if n == "iterators": h.update(bounds="seed topology S%d; every depth -2..7 (enumerated); set and index symbolic" % seed)
         HARNESSES.append(h)
